@@ -191,6 +191,21 @@ func checkC13(c *fw.Ctx) {
 			return "value:ok"
 		})
 	}
+	// the serialisation that is verified is made after the default destination has been filled in:
+	// a store to fields.Destination that can follow the json.Marshal of the fields means the
+	// signature is checked over a different destination than the one the request reports
+	for _, mc := range fw.CallsTo(verify, false, fw.NameIs("encoding/json.Marshal")) {
+		if !strings.HasSuffix(fw.Sig(mc.Common().Args[0]), ".fields") {
+			continue
+		}
+		for _, b := range verify.Blocks {
+			for _, ins := range b.Instrs {
+				if st, isSt := ins.(*ssa.Store); isSt && strings.HasSuffix(fw.Sig(st.Addr), ".fields.Destination") {
+					c.Check(!reachesInstr(mc.(ssa.Instruction), st) || mc.Block() == st.Block() && false, rule, "the verified serialisation includes the destination the request is reported with", c.P.Pos(fw.InstrPos(st)), "", "fields.Destination is assigned after the fields were serialised for verification: a request signed for no destination is verified over \"\" and reported as addressed to this server")
+				}
+			}
+		}
+	}
 	nDef := 0
 	for _, b := range verify.Blocks {
 		for _, ins := range b.Instrs {
@@ -220,7 +235,7 @@ func checkC13(c *fw.Ctx) {
 						ok = true
 					}
 				}
-				c.Check(ok, rule5, "the Authorization header is emitted only if "+map[string]string{"recv.fields.Origin": "the origin", "next(range(": "the key id", "recv.fields.Destination": "the destination"}[what]+" is safe in a quoted string", c.P.Pos(call.Pos()), "", "no isSafeInHTTPQuotedString guard on "+what)
+				c.Expect(ok, rule5, "the Authorization header is emitted only if "+map[string]string{"recv.fields.Origin": "the origin", "next(range(": "the key id", "recv.fields.Destination": "the destination"}[what]+" is safe in a quoted string", c.P.Pos(call.Pos()), "", "no isSafeInHTTPQuotedString guard on "+what+" was recognised among the conditions of the header emission")
 			}
 		}
 		c.Min(rule5+" Authorization sites", len(adds), 1)
@@ -239,12 +254,31 @@ func checkC13(c *fw.Ctx) {
 			c.Undecided("6 qdtext", "byte table", err.Error())
 			return
 		}
-		el := "param:text[phi(0|(<cycle> + 1))]"
+		// a per-byte predicate in an unexported helper is part of the classification
+		tbl.ExpandUnknown(func(atom string) bool { return !fw.AtomCallsUnexportedHelper(atom) })
+		// "the byte": the one operand that is compared with small integer constants
+		el := ""
+		isNum := func(s string) bool { _, err := strconv.Atoi(s); return err == nil }
+		for _, atom := range tbl.Atoms() {
+			if x, _, y, ok := parseCmp(atom); ok {
+				switch {
+				case isNum(y) && !isNum(x) && !strings.Contains(x, "builtin.len("):
+					if el == "" {
+						el = x
+					}
+				case isNum(x) && !isNum(y) && !strings.Contains(y, "builtin.len("):
+					if el == "" {
+						el = y
+					}
+				}
+			}
+		}
 		bad := 0
 		unk := map[string]bool{}
 		for b := 0; b < 256; b++ {
 			env := func(atom string) (bool, bool) {
-				if atom == "(phi(0|(<cycle> + 1)) < builtin.len(param:text))" {
+				// the scanning loop has an element
+				if strings.Contains(atom, "< builtin.len(") || strings.HasPrefix(atom, "next(range(") {
 					return true, true
 				}
 				x, op, y, ok := parseCmp(atom)
@@ -293,6 +327,9 @@ func checkC13(c *fw.Ctx) {
 				}
 			}
 			safe := b == 0x09 || b == 0x20 || b == 0x21 || (b >= 0x23 && b <= 0x5B) || (b >= 0x5D && b <= 0x7E) || b >= 0x80
+			if len(unk) > 0 {
+				continue // conditions the rule does not understand: no verdict
+			}
 			if rejected == safe {
 				bad++
 				c.Fail("6 qdtext", fmt.Sprintf("byte 0x%02X is classified as RFC 7230 qdtext says", b), c.P.Pos(sf.Pos()), fmt.Sprintf("byte 0x%02X: code says safe=%v, RFC 7230 qdtext says safe=%v", b, !rejected, safe))
